@@ -1072,6 +1072,21 @@ static void app_do_action(app_act_t *a)
         if (ares_dup(&d, app_channel) == ARES_SUCCESS && d != NULL) {
           ares_destroy(d);
         }
+        if (a->arg) {
+          /* the other whole-configuration readers */
+          struct ares_options so;
+          int                 smask = 0;
+          char               *csv;
+          memset(&so, 0, sizeof(so));
+          /* as ares_dup() itself does: the options are released whatever save returned */
+          (void)ares_save_options(app_channel, &so, &smask);
+          ares_destroy_options(&so);
+          csv = ares_get_servers_csv(app_channel);
+          if (csv != NULL) {
+            ares_free_string(csv);
+          }
+          sim_note("api_save_options");
+        }
         break;
       }
     case AA_JUMP:
